@@ -935,6 +935,26 @@ func (x *Exec) enterLoop(fr *Frame, li *loopInfo, cur *State, ins []edgeState) *
 			x.vc.assume(hv.pc, fmt.Sprintf("(>= %s %s)", hv.alloc, old))
 		}
 	}
+	// heap locations that an at-site `havoc <lvalue>` clause inside the loop forgets
+	// are loop-carried as well (also past a `preserves` assumption)
+	if fr.ct != nil && fr.inlineTag == "" {
+		for _, at := range fr.ct.Ats {
+			if at.Kind != "havoc" || !fr.siteMayBeInLoop(li, at.Site) {
+				continue
+			}
+			if _, isGhost := fr.ghostLoc[strings.TrimSpace(at.Clause.Text)]; isGhost {
+				continue
+			}
+			ctx := x.ownCtx(fr, hv, true)
+			ctx.src = at.Clause.Src
+			lv := ctx.lvalue(strings.TrimSpace(at.Clause.Text))
+			if lv.key != "" {
+				if _, ok := x.vc.heapSorts[lv.key]; ok {
+					hv.heap[lv.key] = x.vc.freshConst("hv_"+x.vc.heapNames[lv.key], x.vc.heapSorts[lv.key])
+				}
+			}
+		}
+	}
 	for g := range fr.ghostLoc {
 		// ghost locals that some at-clause may set inside the loop are loop-carried
 		if !fr.ghostSetInLoop(li, g) {
@@ -1412,9 +1432,19 @@ func (fr *Frame) ghostSetInLoop(li *loopInfo, g string) bool {
 		if lhs != g {
 			continue
 		}
-		site := strings.TrimPrefix(at.Site, "before:")
+		if fr.siteMayBeInLoop(li, at.Site) {
+			return true
+		}
+	}
+	return false
+}
+
+// siteMayBeInLoop: may the named at-site occur inside loop li?
+func (fr *Frame) siteMayBeInLoop(li *loopInfo, atSite string) bool {
+	{
+		site := strings.TrimPrefix(atSite, "before:")
 		if site == "return" {
-			continue
+			return false
 		}
 		if !strings.HasPrefix(site, "call:") {
 			return true
